@@ -162,7 +162,7 @@ func canonFuncKey(hdr, pkgPath string) (key string, params []string, err error) 
 	if m == nil {
 		return "", nil, fmt.Errorf("bad function header %q", hdr)
 	}
-	star, recv, name, plist := m[1], m[2], m[3], m[4]
+	star, recv, name, plist := m[1], m[2], strings.TrimPrefix(m[3], "."), m[4]
 	if plist != "" {
 		for _, p := range strings.Split(plist, ",") {
 			p = strings.TrimSpace(p)
